@@ -231,9 +231,32 @@ FromIntRecs(pid, n, i) ==
      [id |-> base \o ".UV", op |-> "float_from_int", form |-> "UV",
       stmts |-> "let n_" \o pid \o "_" \o ToString(i) \o " = geti()\nreportf(float_from_int(n_" \o pid \o "_" \o ToString(i) \o "))\n",
       frets |-> <<>>, irets |-> <<ToDec(n)>>, exp |-> ExpOf(r), rep |-> "reportf", cat |-> "float_from_int|" \o OutCat(r), grp |-> base, key |-> "", relkey |-> "", solo |-> FALSE] >>
+\* integer powers at the edges of the exponent range whose mathematical value is a binary64 number (down to the least
+\* subnormal): the base is a literal or comes from the host, so the power is folded (LL) or computed by the VM (LV, VL, VV)
+PowPairs == << <<VDy(FALSE, N(2), 0, TRUE), VDy(TRUE, N(1074), 0, TRUE)>>,      \* 2 ^ -1074 = least subnormal
+               <<VDy(FALSE, N(2), 0, TRUE), VDy(TRUE, N(1073), 0, TRUE)>>,
+               <<VDy(FALSE, N(2), 0, TRUE), VDy(TRUE, N(1023), 0, TRUE)>>,      \* greatest power of two that is subnormal
+               <<VDy(FALSE, N(2), 0, TRUE), VDy(TRUE, N(1022), 0, TRUE)>>,      \* least normal
+               <<VDy(FALSE, N(2), 0, TRUE), VDy(FALSE, N(1023), 0, TRUE)>>,     \* 2^1023
+               <<VDy(FALSE, N(4), 0, TRUE), VDy(TRUE, N(537), 0, TRUE)>>,       \* 4 ^ -537 = 2^-1074
+               <<VDy(FALSE, N(8), 0, TRUE), VDy(TRUE, N(358), 0, TRUE)>>,       \* 8 ^ -358 = 2^-1074
+               <<VDy(TRUE, N(2), 0, TRUE), VDy(TRUE, N(1073), 0, TRUE)>>,       \* (-2) ^ -1073 = -2^-1073
+               <<VDy(TRUE, N(2), 0, TRUE), VDy(TRUE, N(1074), 0, TRUE)>>,
+               <<VDy(FALSE, N(1), -1, TRUE), VDy(FALSE, N(1074), 0, TRUE)>>,    \* 0.5 ^ 1074
+               <<VDy(FALSE, N(1), -2, TRUE), VDy(FALSE, N(511), 0, TRUE)>>,     \* 0.25 ^ 511 = 2^-1022
+               <<VDy(FALSE, N(1), -1, TRUE), VDy(TRUE, N(1023), 0, TRUE)>>,     \* 0.5 ^ -1023 = 2^1023
+               <<VDy(FALSE, N(3), 0, TRUE), VDy(FALSE, N(33), 0, TRUE)>>,       \* 3^33 < 2^53
+               <<VDy(FALSE, N(3), -1, TRUE), VDy(FALSE, N(3), 0, TRUE)>>,       \* 1.5^3
+               <<VDy(FALSE, N(10), 0, TRUE), VDy(FALSE, N(22), 0, TRUE)>>,      \* 1e22
+               <<VDy(FALSE, N(2), 0, TRUE), VDy(TRUE, N(1), 0, TRUE)>>,         \* 2 ^ -1
+               <<VDy(FALSE, N(2), 0, TRUE), VDy(FALSE, N(62), 0, TRUE)>> >>
+PowRecs(pid, a, b) == SelectSeq(ArithRecs(pid, a, b), LAMBDA r : r.op = "^")
+ASSUME \A i \in 1..Len(PowPairs) : FPow(PowPairs[i][1].v, PowPairs[i][2].v).k = "bits"      \* all of them are decided
+ASSUME MDec(FPow(PowPairs[1][1].v, PowPairs[1][2].v).bits) = "1"
+
 ExtraRec ==
   [id |-> "extra", a |-> "", b |-> "", alit |-> "", blit |-> "", kind |-> "extra",
-   ops |-> Flatten([i \in 1..Len(ExtraLits) |-> LitRecs("x" \o ToString(i), ExtraLits[i])
+   ops |-> Flatten([i \in 1..Len(PowPairs) |-> PowRecs("xp" \o ToString(i), PowPairs[i][1], PowPairs[i][2])]) \o Flatten([i \in 1..Len(ExtraLits) |-> LitRecs("x" \o ToString(i), ExtraLits[i])
                                                   \o LitRecs("xn" \o ToString(i), FV(MAdd(ExtraLits[i].bits, M63), "-" \o ExtraLits[i].lit))])
            \o Flatten([i \in 1..Len(IntOperands) |-> FromIntRecs("x", IntOperands[i], i)])]
 
